@@ -34,8 +34,9 @@ EncDevs == {"F1", "F4", "F26", "F28"}
 LibMode(e) == IF e.codec = "der" THEN DERMode ELSE IF e.codec = "cer" THEN CERMode ELSE LibBER(e.def, e.chunk)
 (* the smallest set of named deviations under which the reference encoder reproduces the recorded bytes *)
 Explains(T, v, e) ==
-  LET S == {D \in SUBSET EncDevs : D # {} /\ e.wire = Enc([LibMode(e) EXCEPT !.dev = D], 0, T, v)}
-  IN IF S = {} THEN {} ELSE CHOOSE D \in S : \A D2 \in S : Cardinality(D) <= Cardinality(D2)
+  IF e.wire = Enc(LibMode(e), 0, T, v) THEN {}       \* nothing to explain: it is the reference encoding
+  ELSE LET S == {D \in SUBSET EncDevs : D # {} /\ e.wire = Enc([LibMode(e) EXCEPT !.dev = D], 0, T, v)}
+       IN IF S = {} THEN {} ELSE CHOOSE D \in S : \A D2 \in S : Cardinality(D) <= Cardinality(D2)
 
 JudgeEnc(t, i, T, v, e) ==
   IF e.st # "ok" THEN Check(t, i, "EncRefused", FALSE)
@@ -52,34 +53,70 @@ JudgeEnc(t, i, T, v, e) ==
             /\ LET D == Explains(T, v, e) IN
                  IF D = {} THEN TRUE ELSE PrintT(<<"DEV", Cases[t].id, i, D>>)
 
+(* a decode of an encoding the library itself produced (e.src = index of the recorded encode event):  *)
+(* when that encoding is exactly the reference encoding under named deviations, the input is not a    *)
+(* valid encoding and the decode failure is attributed to the same finding                            *)
+SrcDevs(t, T, v, e) ==
+  IF e.src = 0 THEN {}
+  ELSE LET s == Cases[t].ev[e.src] IN
+       IF s.op # "enc" \/ s.st # "ok" THEN {}
+       ELSE IF e.inp # s.wire \o e.tail THEN {} ELSE Explains(T, v, s)
+
 JudgeDec(t, i, T, v, e) ==
-  /\ Check(t, i, "Crash", e.st # "crash")
-  /\ e.st # "crash" =>
+  IF e.st = "crash" THEN Check(t, i, "Crash", FALSE)
+  ELSE
      CASE e.why \in {"own", "form", "tail"} ->
-            /\ Check(t, i, "Rejected", e.st = "ok")
-            /\ e.st = "ok" =>
-                 /\ Check(t, i, "NotAValue", e.proj = "ok")
-                 /\ e.proj = "ok" => Check(t, i, "ValueDiffers", Norm(T, e.v) = Norm(T, v))
-                 /\ Check(t, i, "RestDiffers", e.rest = e.tail)
-       [] e.why = "prefix" -> Check(t, i, "NotUnderrun", e.st = "underrun")
-       [] e.why \in {"rewrite", "nearmiss"} -> Check(t, i, "Accepted", e.st \in {"error", "underrun"})
+            LET c1 == e.st = "ok"
+                c2 == e.st = "ok" => e.proj = "ok"
+                c3 == (e.st = "ok" /\ e.proj = "ok") => Norm(T, e.v) = Norm(T, v)
+                c4 == e.st = "ok" => e.rest = e.tail
+            IN IF c1 /\ c2 /\ c3 /\ c4 THEN TRUE
+               ELSE /\ Check(t, i, "Rejected", c1) /\ Check(t, i, "NotAValue", c2)
+                    /\ Check(t, i, "ValueDiffers", c3) /\ Check(t, i, "RestDiffers", c4)
+                    /\ LET D == SrcDevs(t, T, v, e) IN IF D = {} THEN TRUE ELSE PrintT(<<"DEV", Cases[t].id, i, D>>)
+       [] e.why = "prefix" ->
+            IF e.st = "underrun" THEN TRUE
+            ELSE /\ Check(t, i, "NotUnderrun", FALSE)
+                 /\ LET D == SrcDevs(t, T, v, [e EXCEPT !.inp = Cases[t].ev[e.src].wire]) IN
+                      IF e.src = 0 \/ D = {} THEN TRUE ELSE PrintT(<<"DEV", Cases[t].id, i, D>>)
+       [] e.why = "nearmiss" -> Check(t, i, "Accepted", e.st \in {"error", "underrun"})
+       [] e.why = "rewrite" ->
+            \* a candidate rewrite is judged only if the reference confirms it is a legitimate
+            \* non-canonical form: same value under the BER reader, refused by the strict reader
+            LET b == Parse("BER", T, e.inp)
+                d == Parse(RulesName(e.rules), T, e.inp)
+            IN IF b.st = "ok" /\ b.v = Norm(T, v) /\ Len(b.rest) = 0 /\ d.st = "err"
+               THEN Check(t, i, "Accepted", e.st \in {"error", "underrun"})
+               ELSE PrintT(<<"SKIP", Cases[t].id, i>>)
        [] e.why = "free" ->   \* arbitrary input: differential against the reference reader where it is "ok"
             LET x == Parse(RulesName(e.rules), T, e.inp) IN
-            (x.st = "ok" /\ e.st = "ok" /\ e.proj = "ok") => Check(t, i, "ValueDiffers", Norm(T, e.v) = x.v)
+            IF x.st = "ok" /\ e.st = "ok" /\ e.proj = "ok" THEN Check(t, i, "ValueDiffers", Norm(T, e.v) = x.v) ELSE TRUE
+
+(* the tag set of the type object equals the model's tag list, outermost first (C13) *)
+JudgeTags(t, i, T, v, e) ==
+  LET ts == TagsOf(T) IN
+  Check(t, i, "TagSetDiffers",
+        /\ Len(e.tags) = Len(ts)
+        /\ \A j \in 1..Len(ts) : e.tags[j].c = ts[j].c /\ e.tags[j].f = ts[j].f /\ e.tags[j].n = ts[j].n)
+
+(* explicit tagging refuses exactly the UNIVERSAL class (C13) *)
+JudgeTagX(t, i, T, v, e) == Check(t, i, "ExplicitUniversal", (e.st = "raise") = ~ExplicitAllowed(e.cls))
 
 (* schemaless decode of a self-describing encoding (C16) *)
 JudgeDecU(t, i, T, v, e) ==
-  /\ Check(t, i, "Crash", e.st # "crash")
-  /\ e.st # "crash" =>
-      /\ Check(t, i, "Rejected", e.st = "ok")
-      /\ e.st = "ok" =>
-           /\ Check(t, i, "NotAValue", e.isvalue)
-           /\ e.isvalue =>
-                /\ (e.reenc_st = "ok" /\ e.codec = "der" => Check(t, i, "ReencodeDiffers", e.reenc = e.inp))
-                /\ Check(t, i, "ReencodeRefused", e.reenc_st = "ok")
-                /\ Check(t, i, "LeavesDiffer",
-                         IF HasSetLike(T) THEN BagEq(e.leaves, Leaves(T, v)) ELSE e.leaves = Leaves(T, v))
-           /\ Check(t, i, "RestDiffers", e.rest = <<>>)
+  IF e.st = "crash" THEN Check(t, i, "Crash", FALSE)
+  ELSE
+    LET c1 == e.st = "ok"
+        c2 == e.st = "ok" => e.isvalue
+        ok == e.st = "ok" /\ e.isvalue
+        c3 == ok => e.reenc_st = "ok"
+        c4 == (ok /\ e.reenc_st = "ok" /\ e.codec = "der") => e.reenc = e.inp
+        c5 == ok => (IF HasSetLike(T) THEN BagEq(e.leaves, Leaves(T, v)) ELSE e.leaves = Leaves(T, v))
+        c6 == e.st = "ok" => Len(e.rest) = 0
+    IN IF c1 /\ c2 /\ c3 /\ c4 /\ c5 /\ c6 THEN TRUE
+       ELSE /\ Check(t, i, "Rejected", c1) /\ Check(t, i, "NotAValue", c2) /\ Check(t, i, "ReencodeRefused", c3)
+            /\ Check(t, i, "ReencodeDiffers", c4) /\ Check(t, i, "LeavesDiffer", c5) /\ Check(t, i, "RestDiffers", c6)
+            /\ LET D == SrcDevs(t, T, v, [e EXCEPT !.tail = <<>>]) IN IF D = {} THEN TRUE ELSE PrintT(<<"DEV", Cases[t].id, i, D>>)
 
 (* several decoders accepted the same input: same abstract value (C02) *)
 JudgeAgree(t, i, T, v, e) ==
@@ -91,6 +128,8 @@ Judge(t, i) ==
     [] e.op = "dec" -> JudgeDec(t, i, c.T, c.v, e)
     [] e.op = "decu" -> JudgeDecU(t, i, c.T, c.v, e)
     [] e.op = "agree" -> JudgeAgree(t, i, c.T, c.v, e)
+    [] e.op = "tags" -> JudgeTags(t, i, c.T, c.v, e)
+    [] e.op = "tagx" -> JudgeTagX(t, i, c.T, c.v, e)
 
 TraceInit == tid \in 1..Len(Cases) /\ l = 0
 TraceNext == /\ l < Len(Cases[tid].ev)
